@@ -866,6 +866,19 @@ class AgreementMonitor(Monitor):
                                      f'{sorted(w.by_identifier[i] for i in truth)}', case=run.describe())
                     if truth:
                         self.count('running_views_compared')
+                # a process that truly runs on an instance seen RUNNING and that the member does not report at all
+                # (process added at run time: numprocs increased, group added again)
+                for identifier in seen_running:
+                    inst = w.instances.get(w.by_identifier.get(identifier))
+                    if inst is None or not inst.alive:
+                        continue
+                    for namespec, state in inst.running_truth().items():
+                        if state in RUNNING_STATES and namespec not in procs:
+                            self.count('running_views_compared')
+                            mech = self.mechanism(nick, namespec, {identifier})
+                            self.violate(f'C12/view-vs-truth:unknown-process{mech}', f'{nick} does not report '
+                                         f'{namespec} at all at quiescence (vt={vt(w)}) although it is {state} on '
+                                         f'{inst.nick}, which it sees RUNNING', case=run.describe())
             nicks = sorted(reports)
             for other in nicks[1:]:
                 for namespec, p in reports[nicks[0]].items():
